@@ -305,3 +305,25 @@ theorem C08.deps_first_nonvacuous :
        .exec .term 2 [], .unload 2, .exec .final 2 [],
        .exec .term 1 [], .unload 1, .exec .final 1 [], .close 1] := by
   decide +kernel
+
+/-! ### the same without "the result is not a fuel exhaustion" hypotheses -/
+
+/-- `linked` always answers, and both passes meet `PassSpec` on its answer
+(`C08.lifecycle_order_load` / `_unload` with `linked … = some l` discharged; any state). -/
+theorem C08.lifecycle_order_total (o : Ord) (ho : o.Valid) (st : State) (sb : Sym) :
+    ∃ l, linked o st sb = some l ∧
+      Nonempty (PassSpec o st .init .begin Event.load l (load o st sb)) ∧
+      Nonempty (PassSpec o st .term .final Event.unload l.reverse (unload o st sb)) := by
+  cases hl : linked o st sb with
+  | none => exact absurd hl (linked_ne_none o ho st sb)
+  | some l => exact ⟨l, rfl, C08.lifecycle_order_load o st sb l hl, C08.lifecycle_order_unload o st sb l hl⟩
+
+/-- `C08.deps_first` with `linked … = some l` discharged: for an acyclic reference graph `linked`
+answers a list in which no symbol comes before a symbol it references. -/
+theorem C08.deps_first_total (o : Ord) (ho : o.Valid) (h : List Op) (hw : WfRun o {} h) (sb : Sym)
+    (hsb : Live (run o {} h) sb) (rank : Nat → Nat) (hrank : Ranked (run o {} h) rank) :
+    ∃ l, linked o (run o {} h) sb = some l ∧ l.Pairwise (fun a b => ¬ Edge (run o {} h) a b) := by
+  cases hl : linked o (run o {} h) sb with
+  | none => exact absurd hl (linked_ne_none o ho _ sb)
+  | some l =>
+    exact ⟨l, rfl, linked_pairwise o ho _ (rinv_run o ho h {} rinv_init hw) sb hsb rank hrank l hl⟩
